@@ -224,6 +224,7 @@ func runC18(k *kernel.K) {
 		stamps  *[]writeStamp
 	}
 	var carry *carried
+	var staleNew *tsConfig // when set, the exchange runs on a connection older than this accepted configuration
 	runExchange := func(cl *Client, connModel *tsConfig, connLatency time.Duration, first bool, stamps *[]writeStamp, j int) {
 		e := &tsEx{id: nextID}
 		nextID++
@@ -272,6 +273,10 @@ func runC18(k *kernel.K) {
 			}
 		}
 		k.Settle()
+		if staleNew != nil {
+			c18CheckStale(k, e, cl, connModel, staleNew, connLatency, (*stamps)[before:], t0, j)
+			return
+		}
 		c18Check(k, e, cl, connModel, connLatency, first, (*stamps)[before:], t0, j)
 	}
 	for ci := 0; ci < nconf && k.Inconclusive == ""; ci++ {
@@ -305,6 +310,13 @@ func runC18(k *kernel.K) {
 		if carry != nil && carry.cl.Alive() && c.invalid != "" {
 			k.Probe("open_connection_across_rejected_config")
 			runExchange(carry.cl, carry.model, carry.latency, false, carry.stamps, len(carry.cl.Script))
+		} else if carry != nil && carry.cl.Alive() && c.invalid == "" && st == 200 {
+			// A connection accepted before an ACCEPTED configuration: the new shape set must not
+			// apply to it.
+			k.Probe("open_connection_across_accepted_config")
+			staleNew = active
+			runExchange(carry.cl, carry.model, carry.latency, false, carry.stamps, len(carry.cl.Script))
+			staleNew = nil
 		}
 		if carry != nil {
 			carry.cl.CloseNow()
@@ -430,51 +442,7 @@ func c18Check(k *kernel.K, e *tsEx, cl *Client, model *tsConfig, latency time.Du
 	// Walk the shape's actions the way they are ordered (by byte; halts before closes at the same
 	// byte): an action fires when its byte lies inside [range start, end of body], its count is
 	// not exhausted and body bytes are written at all; a close ends the walk.
-	type act struct {
-		byte int64
-		halt *tsHalt
-		cls  *tsClose
-	}
-	var acts []act
-	for _, h := range shape.Halts {
-		acts = append(acts, act{byte: h.Byte, halt: h})
-	}
-	for _, c := range shape.Closes {
-		acts = append(acts, act{byte: c.Byte, cls: c})
-	}
-	sort.SliceStable(acts, func(a, b int) bool { return acts[a].byte < acts[b].byte })
-	closeAt := int64(-1)
-	end := e.rangeStart + int64(len(e.body))
-	var firedHalts []*tsHalt
-	if len(e.body) > 0 {
-		for _, a := range acts {
-			if a.byte < e.rangeStart || a.byte > end {
-				continue
-			}
-			if a.halt != nil {
-				if a.halt.Count == 0 {
-					continue
-				}
-				if a.halt.Count > 0 {
-					a.halt.Count--
-				}
-				firedHalts = append(firedHalts, a.halt)
-				continue
-			}
-			if a.cls.Count == 0 {
-				continue
-			}
-			if a.cls.Count > 0 {
-				a.cls.Count--
-			}
-			closeAt = a.byte
-			break
-		}
-	}
-	if closeAt == end && closeAt >= 0 {
-		// a close exactly at the end of the body: the response is complete either way
-		closeAt = -2
-	}
+	closeAt, firedHalts := c18Walk(shape, e, true)
 	if got == nil || !got.HeadDone {
 		k.Fail("C18.bytes_exact", map[string]string{"shaped": "true"}, "%s: no response head reached the client", desc)
 		return
@@ -561,6 +529,129 @@ func c18Check(k *kernel.K, e *tsEx, cl *Client, model *tsConfig, latency time.Du
 		secs := (nbytes+t.Bandwidth-1)/t.Bandwidth - 2
 		if secs > 0 && elapsed < time.Duration(secs)*time.Second-time.Millisecond {
 			k.Fail("C18.throttle_delay", nil, "%s: %d bytes inside the throttle %s at %d B/s were delivered in %v, the token bucket needs at least %d s", desc, nbytes, t.Bytes, t.Bandwidth, elapsed, secs)
+		}
+	}
+}
+
+// c18Walk walks a shape's actions over one exchange the way they are ordered (by byte; halts
+// before closes at the same byte) and returns the absolute byte of the close that ends the
+// response (-1: none, -2: exactly at the end of the body) and the halts that fire before it. With
+// consume set the counts of the model are decremented, as the real actions' counts are.
+func c18Walk(shape *tsShape, e *tsEx, consume bool) (int64, []*tsHalt) {
+	type act struct {
+		byte int64
+		halt *tsHalt
+		cls  *tsClose
+	}
+	var acts []act
+	for _, h := range shape.Halts {
+		acts = append(acts, act{byte: h.Byte, halt: h})
+	}
+	for _, c := range shape.Closes {
+		acts = append(acts, act{byte: c.Byte, cls: c})
+	}
+	sort.SliceStable(acts, func(a, b int) bool { return acts[a].byte < acts[b].byte })
+	closeAt := int64(-1)
+	end := e.rangeStart + int64(len(e.body))
+	var firedHalts []*tsHalt
+	if len(e.body) > 0 {
+		for _, a := range acts {
+			if a.byte < e.rangeStart || a.byte > end {
+				continue
+			}
+			if a.halt != nil {
+				if a.halt.Count == 0 {
+					continue
+				}
+				if a.halt.Count > 0 && consume {
+					a.halt.Count--
+				}
+				firedHalts = append(firedHalts, a.halt)
+				continue
+			}
+			if a.cls.Count == 0 {
+				continue
+			}
+			if a.cls.Count > 0 && consume {
+				a.cls.Count--
+			}
+			closeAt = a.byte
+			break
+		}
+	}
+	if closeAt == end && closeAt >= 0 {
+		// a close exactly at the end of the body: the response is complete either way
+		closeAt = -2
+	}
+	return closeAt, firedHalts
+}
+
+func c18ShapeFor(model *tsConfig, url string) *tsShape {
+	if model == nil {
+		return nil
+	}
+	for _, s := range model.Shapes {
+		if ok, _ := regexp.MatchString(s.URLRegex, url); ok {
+			return s
+		}
+	}
+	return nil
+}
+
+// c18CheckStale judges an exchange on a connection that was accepted before the configuration
+// newModel was accepted: "an accepted configuration applies only to connections accepted
+// afterwards". What still applies to such a connection is not stated (the shaping it was accepted
+// under, or none), so both are allowed; what newModel alone would do is not.
+func c18CheckStale(k *kernel.K, e *tsEx, cl *Client, oldModel, newModel *tsConfig, latency time.Duration, stamps []writeStamp, t0 time.Duration, idx int) {
+	desc := fmt.Sprintf("exchange #%d (GET %s, resource %dB, range start %d, body %dB) on a connection accepted BEFORE the current configuration was accepted", e.id, e.spec.Target(), e.total, e.rangeStart, len(e.body))
+	url := e.spec.Target()
+	oldShape, newShape := c18ShapeFor(oldModel, url), c18ShapeFor(newModel, url)
+	fin := cl.P.Final()
+	var got *wire.Msg
+	complete := false
+	if idx >= 0 && idx < len(fin) {
+		got, complete = fin[idx], true
+	} else if cl.P.Cur != nil {
+		got = cl.P.Cur
+	}
+	elapsed := k.Now() - t0
+	oldClose, newClose := int64(-1), int64(-1)
+	var newHalts []*tsHalt
+	if oldShape != nil {
+		oldClose, _ = c18Walk(oldShape, e, false)
+	}
+	if newShape != nil {
+		newClose, newHalts = c18Walk(newShape, e, false)
+	}
+	intact := complete && got != nil && firstDiff(got.Body, e.body) < 0
+	if !intact {
+		n := -1
+		if got != nil {
+			n = len(got.Body)
+		}
+		if oldClose >= 0 && got != nil && got.HeadDone && int64(n) == oldClose-e.rangeStart && bytes.Equal(got.Body, e.body[:n]) {
+			return // the shaping the connection was accepted under still applies: allowed
+		}
+		how := "matches neither the old nor the new shape set"
+		if newClose >= 0 && int64(n) == newClose-e.rangeStart {
+			how = fmt.Sprintf("exactly what the NEW configuration's close action at byte %d does", newClose)
+		}
+		k.Fail("C18.accept_only_new_conns", map[string]string{"effect": "cut"}, "%s: the client received %d of %d body bytes (complete=%v, eof=%v): %s; the old shape set would close at %d (-1: no close)", desc, n, len(e.body), complete, cl.SawEOF, how, oldClose)
+		return
+	}
+	if oldShape == nil && newShape != nil {
+		// nothing of the old set concerns this URL: the response must not be delayed by the new one
+		minHalt := time.Duration(0)
+		for _, h := range newHalts {
+			if h.Byte-e.rangeStart < int64(len(e.body)) {
+				d := time.Duration(h.Duration) * time.Millisecond
+				if minHalt == 0 || d < minHalt {
+					minHalt = d
+				}
+			}
+		}
+		if minHalt > 0 && elapsed >= minHalt && elapsed > 2*latency+2*time.Millisecond {
+			k.Fail("C18.accept_only_new_conns", map[string]string{"effect": "delay"}, "%s: took %v of simulated time; the old shape set has no shape for this URL, the NEW one halts for %v", desc, elapsed, minHalt)
 		}
 	}
 }
